@@ -25,7 +25,7 @@ Proof. intros H l. induction l as [|x l IH]; intros a; cbn; [reflexivity|]. rewr
 
 Theorem gen_analyse_paths_is_model : forall file_list root, gen_analyse_paths file_list root = analyse_paths file_list root.
 Proof.
-  intros fl root. unfold gen_analyse_paths, analyse_paths.
+  intros fl root. unfold gen_analyse_paths, analyse_paths. rewrite ?Nat.add_0_r, ?Nat.add_0_l, ?Nat.sub_0_r.
   change (map (fun fn => split_on "/"%char (join_path [fn])) fl) with (map parts_of fl).
   destruct root as [r|].
   - change (split_on "/"%char (join_path [r])) with (parts_of r). cbv zeta.
